@@ -136,6 +136,13 @@ def cases(tier, seed):
     specials.append("const main: i32 = 5;\n\nconst twice: [2]i32 = [2, 3];\n\nconst helper: i64 = 9;\n\npub fn twice(x: i32) -> i32\n{\n"
                     "\treturn: x * twice[0]\n}\n\nfn helper() -> i64\n{\n\treturn: helper\n}\n\nfn main() -> i32\n{\n"
                     "\treturn: main + twice(1) + helper() as i32\n}\n")
+    # functions named like the C symbols the builtins are lowered to: what the source defines must be defined under its own name
+    from . import c02
+    for cell, src in c02.intrinsic_name_sources():
+        yield {"kind": "intrinsic_names", "files": [("names.pn", src)]}
+        if "form 7" in cell or "form 5" in cell:
+            yield {"kind": "intrinsic_names_lib", "files": [("names.pn", src.replace("fn main()", "fn other()")),
+                                                            ("app.pn", "import \"names.pn\";\n\nfn main() -> i32\n{\n\treturn: 0\n}\n")]}
     for s in specials:
         yield {"kind": "special", "files": [("special.pn", s)]}
         yield {"kind": "special_wasm", "files": [("special.pn", s)], "wasm": True}
